@@ -341,12 +341,15 @@ def pollerPoll (s : State) (ready : List (Nat × Nat)) (nret : Nat) : State × L
     if nret > 0 then pollFill s ready s.pollfds nret [] else (s, [])
   | .epoll =>
     let s := emit s (.wait s.evsize kPollTimeMs)
-    if ready.length > s.evsize ∨ nret ≠ ready.length then (abort (emit s .badEnv) "numEvents <= events_.size()", [])
-    else if epHasEvents (nret : Int) then
-      let (s1, act) := epollFill s ready []
-      if epArrayFull nret s1.evsize then
-        ({ emit s1 (.grow (epGrowTo s1.evsize)) with evsize := epGrowTo s1.evsize }, act)
-      else (s1, act)
+    if epHasEvents (nret : Int) then
+      -- the first assertion of `fillActiveChannels` (and the environment's well-formedness: the kernel wrote as
+      -- many entries as it says), under `numEvents > 0` as in the source
+      if ready.length > s.evsize ∨ nret ≠ ready.length then (abort (emit s .badEnv) "numEvents <= events_.size()", [])
+      else
+        let (s1, act) := epollFill s ready []
+        if epArrayFull nret s1.evsize then
+          ({ emit s1 (.grow (epGrowTo s1.evsize)) with evsize := epGrowTo s1.evsize }, act)
+        else (s1, act)
     else (s, [])
 
 /-- one iteration of `EventLoop::loop` -/
